@@ -1,4 +1,4 @@
-import FiberModel.C10.IPLemmas
+import FiberModel.C10.ValidLemmas
 /-
 C10 — property theorems (only). Helper lemmas: Lemmas, IPLemmas.
 
@@ -125,6 +125,37 @@ theorem validated_ip_is_accepted (cfg : Cfg) (cn : Conn) (hs : Headers) (hv : cf
     | none => left; rfl
     | some s => right; exact List.find?_some hf
   · left; rfl
+
+/- Full statement (NOT proved, and false on the unchanged tree, see K1):
+     cfg.validate = true → validIP cn.ripStr = true → validIP (ip cfg cn hs) = true
+   i.e. the reported address is always in the RFC 791 / RFC 4291 text grammar. -/
+/-- With IP validation on, the reported client IP is the peer's own address, or a syntactically
+    valid dotted quad (RFC 791: four decimal octets ≤ 255 without leading zeros), or an element
+    containing a colon that `utils.IsIPv6` accepts. Partial: that `utils.IsIPv6` accepts only RFC 4291
+    text forms is not proved here (it is false for groups of more than four hex digits — known finding
+    K1 — and otherwise covered by the spec oracle on every observed output). -/
+theorem validated_ip_is_valid_partial (cfg : Cfg) (cn : Conn) (hs : Headers) (hv : cfg.validate = true) :
+    ip cfg cn hs = cn.ripStr ∨ validIPv4 (ip cfg cn hs) = true ∨
+      ((ip cfg cn hs).contains 58 = true ∧ isIPv6 (ip cfg cn hs) = true) := by
+  rcases validated_ip_is_accepted cfg cn hs hv with h | h
+  · left; exact h
+  · right
+    unfold utilsValid at h
+    split at h
+    · rename_i h6; right; exact ⟨h6, h⟩
+    · split at h
+      · left; exact isIPv4_valid h
+      · cases h
+
+/-- the known finding K1 as a theorem about the model: validation on, trusted peer,
+    `X-Forwarded-For: 0:0:0:0:0:0:0:00001` is reported although it is not a valid address -/
+theorem validated_ip_is_valid_witness_K1 :
+    let cfg : Cfg := { trustProxy := true, loopback := true, priv := false, linkLocal := false, proxies := [],
+                       proxyHeader := b "X-Forwarded-For", normProxyHeader := b "X-Forwarded-For", validate := true }
+    let cn : Conn := { rip := [127, 0, 0, 1], ripStr := b "127.0.0.1", tls := false, uriHost := b "example.com", proto := b "HTTP/1.1" }
+    let hs : Headers := [(b "X-Forwarded-For", b "0:0:0:0:0:0:0:00001")]
+    ¬ (validIP (ip cfg cn hs) = true) ∧ Known.K1 cfg hs = true := by
+  decide
 
 /-- the same for every element of `IPs()` -/
 theorem validated_ips_accepted (cfg : Cfg) (hs : Headers) (hv : cfg.validate = true) :
